@@ -30,7 +30,7 @@ ASSUMPTIONS = [
 COMPONENTS = {"real": ["pyxel Processor.has/get/set, _get_obj_att, eval_entry, Observation.validate_steps, apply_overrides, run_mode"], "stub": []}
 BUDGET = {"quick": {"n": 960, "wall": 100, "determinism": 4}, "thorough": {"n": 200000, "wall": 1500, "determinism": 12}}
 BAD = ["other-detector-field", "misspelt-field", "misspelt-section", "truncated", "extended", "wrong-group", "wrong-model", "arguments-typo", "undeclared-arg", "model-as-key"]
-REQUIRED_REACH = ["valid_on_other_detector_first", "duplicate_model_names", "op:set", "op:get", "op:has", "sys:sweep-bad", "sys:override-bad", "sys:sweep-disabled-model", "sys:sweep-ok", "sys:override-ok", "text_values", "set_on_copy", "sweep_multi_dask", "sweep_multi_sequential"] + ["bad:" + b for b in BAD]
+REQUIRED_REACH = ["valid_on_other_detector_first", "duplicate_model_names", "op:set", "op:get", "op:has", "sys:sweep-bad", "sys:override-bad", "sys:sweep-disabled-model", "sys:sweep-ok", "sys:override-ok", "text_values", "offending_step_not_first", "set_on_copy", "sweep_multi_dask", "sweep_multi_sequential"] + ["bad:" + b for b in BAD]
 
 DET_FIELDS = {
     "detector.geometry.row": "int+", "detector.geometry.col": "int+", "detector.geometry.total_thickness": "thick", "detector.geometry.pixel_vert_size": "size", "detector.geometry.pixel_horz_size": "size",
@@ -187,6 +187,9 @@ def generate(rng, tier):
         else:
             sysop["key"] = "detector.characteristics.quantum_efficiency"
     sysop["values"] = [0.25, 0.5] if sysop["key"].endswith("quantum_efficiency") else [3, 4]
+    if kind in ("sweep-bad", "sweep-disabled-model") and rng.random() < 0.5:
+        # the offending step is not the first one: a perfectly valid detector step is declared before it
+        sysop["lead"] = ["detector.environment.temperature", [float(scn["detector"]["temperature"]), float(scn["detector"]["temperature"]) + 1.0]]
     scn["sys"] = sysop
     return scn
 
@@ -455,7 +458,10 @@ def execute(scn):
                     if sysop["with_dask"]:
                         tree.compute()
             elif sysop["kind"].startswith("sweep"):
-                mode = Observation(parameters=[ParameterValues(key=sysop["key"], values=list(sysop["values"]))], readout=readout)
+                lead = [ParameterValues(key=sysop["lead"][0], values=list(sysop["lead"][1]))] if sysop.get("lead") else []
+                if lead:
+                    stats["offending_step_not_first"] = 1
+                mode = Observation(parameters=[*lead, ParameterValues(key=sysop["key"], values=list(sysop["values"]))], readout=readout)
                 pyxel.run_mode(mode=mode, detector=det, pipeline=pipe, with_inherited_coords=True)
             else:
                 mode = Exposure(readout=readout)
